@@ -6,12 +6,6 @@ Import ListNotations.
 
 Definition norb (l : list nat) : Prop := forallb (fun c => negb (c =? c_rb)) l = true.
 
-Lemma ordinary_facts x : ordinary x = true ->
-  (x =? c_rb) = false /\ (x =? c_caret) = false /\ (x =? c_lb) = false /\ (x =? c_colon) = false /\ (x =? c_bs) = false.
-Proof. unfold ordinary. rewrite negb_true_iff, !orb_false_iff. tauto. Qed.
-Lemma coll_at_ord d x e r : coll_at d x e r = true -> ordinary x = true.
-Proof. unfold coll_at. rewrite !andb_true_iff. tauto. Qed.
-
 Lemma rc_skip : forall acc d rest, norb acc -> closed_early QC d (acc ++ c_rb :: rest) = closed_early (QB false false) d rest.
 Proof.
   induction acc as [|a acc IH]; intros d rest H; cbn [app closed_early].
@@ -81,17 +75,8 @@ Lemma wb_head c2 s2 d : (c2 =? c_colon) = false ->
 Proof.
   intros H. cbn [wrap andb]. destruct (c2 =? c_rb); [now eexists _, _|].
   destruct (c2 =? c_lb) eqn:E; [|now eexists _, _].
-  apply Nat.eqb_eq in E. subst c2. cbv zeta.
-  assert (Hother : exists x rest,
-    match s2 with
-    | d2 :: s3 => if d2 =? c_colon then wrap true true false (WC [d2]) d s3 else c_lb :: wrap true true false (WB false false) d s2
-    | [] => c_lb :: wrap true true false (WB false false) d s2
-    end = x :: rest /\ (x =? c_colon) = false).
-  { destruct s2 as [|d2 s3]; [now eexists _, _|]. destruct (d2 =? c_colon); [apply wc_head|now eexists _, _]. }
-  destruct s2 as [|d0 [|x0 [|e0 [|r0 s3]]]]; try exact Hother.
-  destruct (coll_at d0 x0 e0 r0) eqn:Ea; [|exact Hother].
-  exists x0, (wrap true true false (WB false false) d s3). split; [reflexivity|].
-  apply coll_at_ord, ordinary_facts in Ea. tauto.
+  apply Nat.eqb_eq in E. subst c2.
+  destruct s2 as [|d2 s3]; [now eexists _, _|]. destruct (d2 =? c_colon); [apply wc_head|now eexists _, _].
 Qed.
 
 Lemma wrap_safe_len : forall n s q r d, length s <= n -> wf_state q -> reads q r -> closed_early r d (wrap true true false q d s) = false.
@@ -134,27 +119,15 @@ Proof.
       { try rewrite E3 in E2. rewrite andb_true_r in E2. subst mr. cbn [closed_early]. rewrite E1, E3. cbn [andb]. now apply IH. }
       assert (E2' : forall b, b && (c =? c_rb) = false) by (intros b; rewrite E3; apply andb_false_r).
       destruct (c =? c_lb) eqn:E4.
-      { cbv zeta.
-        assert (Hother : closed_early (QB mc mr) d
-          match s with
-          | d0 :: s2 => if d0 =? c_colon then wrap true true false (WC [d0]) d s2 else c :: wrap true true false (WB false false) d s
-          | [] => c :: wrap true true false (WB false false) d s
-          end = false).
-        { destruct s as [|c2 s2].
-          - cbn [wrap closed_early]. rewrite E1, E2', E3, E4. reflexivity.
-          - cbv iota. destruct (c2 =? c_colon) eqn:E5.
-            + (* the "[" is written later: the reader is still where it was *)
-              apply IH; [cbn [length] in Hs; lia| |exact I]. exists []. split; [now apply Nat.eqb_eq in E5; subst|reflexivity].
-            + destruct (wb_head c2 s2 d E5) as (x & rest & Ew & Hx).
-              assert (Hgoal : closed_early (QB false false) d (wrap true true false (WB false false) d (c2 :: s2)) = false)
-                by (apply IH; [exact Hs|exact I|split; reflexivity]).
-              cbn [closed_early]. rewrite E1, E2', E3, E4. rewrite Ew in *. rewrite Hx. exact Hgoal. }
-        destruct s as [|d0 [|x0 [|e0 [|r0 s3]]]]; try exact Hother.
-        destruct (coll_at d0 x0 e0 r0) eqn:Ea; [|exact Hother].
-        (* a collating symbol: the character it names is an ordinary member for the reader *)
-        apply coll_at_ord, ordinary_facts in Ea. destruct Ea as (F1 & F2 & F3 & F4 & F5).
-        cbn [closed_early]. rewrite F1, F2, F3, !andb_false_r.
-        apply IH; [cbn [length] in Hs; lia|exact I|split; reflexivity]. }
+      { destruct s as [|c2 s2].
+        - cbn [wrap closed_early]. rewrite E1, E2', E3, E4. reflexivity.
+        - cbv iota. destruct (c2 =? c_colon) eqn:E5.
+          + (* the "[" is written later: the reader is still where it was *)
+            apply IH; [cbn [length] in Hs; lia| |exact I]. exists []. split; [now apply Nat.eqb_eq in E5; subst|reflexivity].
+          + destruct (wb_head c2 s2 d E5) as (x & rest & Ew & Hx).
+            assert (Hgoal : closed_early (QB false false) d (wrap true true false (WB false false) d (c2 :: s2)) = false)
+              by (apply IH; [exact Hs|exact I|split; reflexivity]).
+            cbn [closed_early]. rewrite E1, E2', E3, E4. rewrite Ew in *. rewrite Hx. exact Hgoal. }
       cbn [closed_early]. rewrite E1, E2', E3, E4. apply IH; [exact Hs|exact I|split; reflexivity].
     + (* WC *)
       destruct Hwf as (a & -> & Ha).
@@ -165,44 +138,53 @@ Qed.
 
 (* for every pattern: the wrapped text cannot close the wrapping group *)
 Theorem inside_group_never_closes : forall p, closed_early QT 0 (inside_group true true false false false p) = false.
-Proof. intros p. unfold inside_group, spell. cbn [orb]. now apply (wrap_safe_len (length p)). Qed.
+Proof. intros p. unfold inside_group. now apply (wrap_safe_len (length (spelled true false false false p))). Qed.
 
-(* emacs (no extended groups, no character classes, no newline alternation): only what follows a backslash, and a collating
-   symbol "[.x.]" / "[=x=]" inside a bracket expression, is ever rewritten *)
+(* emacs (no extended groups, no character classes, no newline alternation): only what follows a backslash is ever rewritten *)
+Definition plain_state (q : wst) : Prop := match q with WT false => True | WB _ _ => True | _ => False end.
+Lemma wrap_emacs_plain : forall s q d, forallb (fun c => negb (c =? c_bs)) s = true -> plain_state q ->
+  wrap false false false q d s = s.
+Proof.
+  induction s as [|c s IH]; intros q d Hs Hq.
+  - destruct q as [[|]| | |]; cbn in Hq; try contradiction; reflexivity.
+  - cbn [forallb] in Hs. apply andb_true_iff in Hs as [Hc Hs]. apply negb_true_iff in Hc.
+    destruct q as [[|]| |mc mr|]; cbn in Hq; try contradiction; cbn [wrap andb].
+    + rewrite Hc. destruct (c =? c_lb); rewrite IH; auto; exact I.
+    + destruct (mc && (c =? c_caret)); [rewrite IH; auto; exact I|].
+      destruct (mr && (c =? c_rb)); [rewrite IH; auto; exact I|].
+      destruct (c =? c_rb); [rewrite IH; auto; exact I|].
+      destruct (c =? c_lb); rewrite IH; auto; exact I.
+Qed.
+(* a pattern free of rewritable collating symbols goes through spell_collating as it is *)
 Fixpoint collfree (s : list nat) : bool :=
   match s with
   | [] => true
   | c :: s' => negb ((c =? c_lb) && match coll s' with Some _ => true | None => false end) && collfree s'
   end.
-Definition plain_state (q : wst) : Prop := match q with WT false => True | WB _ _ => True | _ => False end.
-Lemma emacs_lb s d mc mr : coll s = None ->
-  wrap false false false (WB mc mr) d (c_lb :: s) = c_lb :: wrap false false false (WB false false) d s.
+Lemma collp_collfree cls : forall s q, collfree s = true -> collp cls q s = s.
 Proof.
-  intros H. cbn [wrap]. change (c_lb =? c_caret) with false. change (c_lb =? c_rb) with false. change (c_lb =? c_lb) with true.
-  rewrite !andb_false_r. cbv zeta iota. unfold coll in H.
-  destruct s as [|d0 [|x0 [|e0 [|r0 s3]]]]; try reflexivity. destruct (coll_at d0 x0 e0 r0); [discriminate|reflexivity].
+  induction s as [|c s IH]; intros q Hf; [destruct q; reflexivity|].
+  cbn [collfree] in Hf. apply andb_true_iff in Hf as [Hl Hf]. apply negb_true_iff in Hl.
+  destruct q as [| |mc mr|]; cbn [collp].
+  - destruct (c =? c_bs); [now rewrite IH|]. destruct (c =? c_lb); now rewrite IH.
+  - now rewrite IH.
+  - destruct (mc && (c =? c_caret)); [now rewrite IH|]. destruct (mr && (c =? c_rb)); [now rewrite IH|].
+    destruct (c =? c_rb); [now rewrite IH|]. destruct (c =? c_lb) eqn:El; [|now rewrite IH].
+    cbn [andb] in Hl. cbv zeta.
+    assert (Hother : match s with
+                     | d :: _ => if cls && (d =? c_colon) then c :: collp cls CC s else c :: collp cls (CB false false) s
+                     | [] => [c] end = c :: s).
+    { destruct s as [|d s2]; [reflexivity|]. destruct (cls && (d =? c_colon)); now rewrite IH. }
+    unfold coll in Hl. destruct s as [|d0 [|x0 [|e0 [|r0 s3]]]]; try exact Hother.
+    destruct (coll_at d0 x0 e0 r0); [discriminate|exact Hother].
+  - destruct (c =? c_rb); now rewrite IH.
 Qed.
-Lemma wrap_emacs_plain : forall s q d, forallb (fun c => negb (c =? c_bs)) s = true -> collfree s = true -> plain_state q ->
-  wrap false false false q d s = s.
-Proof.
-  induction s as [|c s IH]; intros q d Hs Hf Hq.
-  - destruct q as [[|]| | |]; cbn in Hq; try contradiction; reflexivity.
-  - cbn [forallb] in Hs. apply andb_true_iff in Hs as [Hc Hs]. apply negb_true_iff in Hc.
-    cbn [collfree] in Hf. apply andb_true_iff in Hf as [Hl Hf]. apply negb_true_iff in Hl.
-    destruct q as [[|]| |mc mr|]; cbn in Hq; try contradiction.
-    + cbn [wrap andb]. rewrite Hc. destruct (c =? c_lb); rewrite IH; auto; exact I.
-    + destruct (c =? c_lb) eqn:El.
-      * apply Nat.eqb_eq in El. subst c. cbn [andb] in Hl.
-        assert (Hn : coll s = None) by (destruct (coll s); [discriminate|reflexivity]).
-        rewrite emacs_lb by exact Hn. rewrite IH; auto; exact I.
-      * cbn [wrap]. rewrite El.
-        destruct (mc && (c =? c_caret)); [rewrite IH; auto; exact I|].
-        destruct (mr && (c =? c_rb)); [rewrite IH; auto; exact I|].
-        destruct (c =? c_rb); rewrite IH; auto; exact I.
-Qed.
+
 Theorem emacs_text_unchanged p : forallb (fun c => negb (c =? c_bs)) p = true -> collfree p = true ->
   inside_group false false false false false p = p.
-Proof. intros H Hf. unfold inside_group, spell. cbn [orb]. now apply wrap_emacs_plain. Qed.
+Proof.
+  intros H Hf. unfold inside_group, spelled, spell. cbn [orb]. rewrite collp_collfree by exact Hf. now apply wrap_emacs_plain.
+Qed.
 
 (* ---- the spelling of the basic syntaxes' operators: a pattern without a backslash is not touched (every operator it rewrites
    is written with one) ---- *)
